@@ -199,7 +199,7 @@ class FuncAnalysis:
                 if self.is_acc:
                     self.env[p.arg] = AV(kind="SELF")
                 else:
-                    self.env[p.arg] = AV(kind="SELF", inst=self.cls)
+                    self.env[p.arg] = AV.root("self", "SELF").clone(inst=self.cls)
                 continue
             if i == 0 and self.is_plugin:
                 self.env[p.arg] = AV.root("self", "DS").clone(acc="SpecDataset")
@@ -414,10 +414,10 @@ class FuncAnalysis:
             if owner.kind == "SELF":
                 if isinstance(owner_e, ast.Name):
                     if self.is_acc:
-                        if not (self.fi.name == "__init__"):
-                            self.out.field_writes.append((t.attr, self.fi.file, s.lineno, unparse(s)[:140]))
-                        else:
-                            self.out.field_writes.append(("__init__:" + t.attr, self.fi.file, s.lineno, unparse(s)[:140]))
+                        dep = any(r == "self" or r.startswith("p:") for r, _ in v.all_pairs())
+                        isparam = isinstance(s, ast.Assign) and isinstance(s.value, ast.Name) and s.value.id in self.fi.params
+                        tag = t.attr if self.fi.name != "__init__" else "__init__:" + t.attr
+                        self.out.field_writes.append((tag, self.fi.file, s.lineno, unparse(s)[:140], dep, isparam))
                     else:
                         self.eng.set_field(self.cls, t.attr, v)
                         if self.fi.name != "__init__":
@@ -434,8 +434,8 @@ class FuncAnalysis:
                 self.sink(owner, ("B", "C"), s, f".{t.attr} assignment")
             else:
                 if owner.acc:
-                    # setattr on an accessor instance (e.g. SpecDataset._wrapper): instance state
-                    self.out.field_writes.append((t.attr, self.fi.file, s.lineno, unparse(s)[:140]))
+                    # attribute set on an accessor instance: instance state
+                    self.out.field_writes.append((t.attr, self.fi.file, s.lineno, unparse(s)[:140], True, False))
                 self.sink(owner, ("C",), s, f"attribute .{t.attr} assignment")
         elif isinstance(t, ast.Starred):
             self.assign(t.value, v, s)
@@ -487,7 +487,7 @@ class FuncAnalysis:
             owner = self.ev(t.value)
             if owner.kind == "SELF":
                 if self.is_acc and self.fi.name != "__init__":
-                    self.out.field_writes.append((t.attr, self.fi.file, s.lineno, unparse(s)[:140]))
+                    self.out.field_writes.append((t.attr, self.fi.file, s.lineno, unparse(s)[:140], True, False))
                 return
             if t.attr in ("values", "data"):
                 self.sink(owner, ("B",), s, "in-place update of .values")
@@ -649,7 +649,12 @@ class FuncAnalysis:
             if isinstance(ce, (ast.Constant, ast.JoinedStr)) or (isinstance(ce, (ast.BinOp, ast.UnaryOp)) and self.repo.const(cm, ce) is not UNKNOWN and not isinstance(self.repo.const(cm, ce), (dict, list))):
                 return fresh("SC")
             kind = "PY" if isinstance(ce, (ast.Dict, ast.List, ast.Set, ast.DictComp, ast.ListComp)) else "TOP"
-            return AV.root(f"g:{cm.name}.{e.id}", kind)
+            r = AV.root(f"g:{cm.name}.{e.id}", kind)
+            if isinstance(ce, ast.Call):
+                csym = self.repo.resolve_expr(cm, ce.func)
+                if isinstance(csym, ClassInfo):
+                    r = r.clone(kind="OBJ", inst=csym)
+            return r
         return fresh("SC")
 
     def ev_Tuple(self, e):
@@ -739,8 +744,17 @@ class FuncAnalysis:
         return v
 
     def ev_Subscript(self, e):
+        cg = self._const_global(e)
+        if cg is not None:
+            return cg
         x = self.ev(e.value)
-        self.ev(e.slice)
+        k = self.ev(e.slice)
+        if x.inst is not None and x.kind in ("OBJ", "SELF"):
+            gi = x.inst.methods.get("__getitem__")
+            if gi is not None:
+                r = self.call_internal(gi, [k], {}, e, self_av=x)
+                # the element is (part of) the receiver's state
+                return AV(x.kind, x.C, x.V, x.B, x.Bc, dict(x.vc), inst=x.inst)
         if x.kind in ("DA", "DS", "XR"):
             name = const_str(self.repo, self.mod, e.slice)
             if name is not None:
@@ -778,7 +792,29 @@ class FuncAnalysis:
             return x.elem
         return x.clone(C=x.C, acc=None) if x.all_pairs() else fresh("TOP")
 
+    def _const_global(self, e):
+        """Attribute / subscript chain rooted at a module-level object whose value is determined by
+        constants (e.g. attrs.FREQNAME, attrs.ATTRS.dp.units, DEFAULTS["ihmax"]): the key exists, so
+        dict-protocol methods with insert-on-miss behaviour are not triggered."""
+        b = e
+        while isinstance(b, (ast.Attribute, ast.Subscript)):
+            b = b.value
+        if not isinstance(b, ast.Name) or b.id in self.env:
+            return None
+        c = self.repo.const(self.mod, e)
+        if c is UNKNOWN:
+            return None
+        if isinstance(c, (dict, list)):
+            sym = self.repo.resolve_symbol(self.mod, b.id)
+            if isinstance(sym, tuple) and sym[0] == "const":
+                return self.ev_Name(b)
+            return None
+        return fresh("SC")
+
     def ev_Attribute(self, e):
+        cg = self._const_global(e)
+        if cg is not None:
+            return cg
         x = self.ev(e.value)
         a = e.attr
         if x.kind == "SELF":
@@ -788,6 +824,8 @@ class FuncAnalysis:
                 m = self._acc_member(self.cls.name, a)
                 if m is not None and m.is_property:
                     return self.call_internal(m, [], {}, e, self_av=AV.root("self", ACCESSOR_CLASSES[self.cls.name]))
+                if m is None and a in self._acc_state_fields():
+                    return AV.root(f"selfstate:{self.cls.name}.{a}", "TOP")
                 if m is None and self.cls.name == "SpecDataset":
                     # __getattr__ falls through to the wrapped Dataset
                     return self._xr_attr(AV.root("self", "DS"), a)
@@ -808,6 +846,10 @@ class FuncAnalysis:
             f = self.eng.field_av(x.inst, a)
             if f is not None:
                 return self.inst_field(f, x)
+            ga = x.inst.methods.get("__getattr__")
+            if ga is not None and m is None:
+                self.call_internal(ga, [fresh("SC")], {}, e, self_av=x)
+                return AV(x.kind, x.C, x.V, x.B, x.Bc, dict(x.vc), inst=x.inst)
             return fresh("TOP")
         if x.acc:                  # accessor object
             if x.acc == "Partition":
@@ -842,6 +884,15 @@ class FuncAnalysis:
         if x.kind == "PY":
             return fresh("TOP")
         return fresh("SC") if x.kind == "SC" else fresh("TOP")
+
+    def _acc_state_fields(self):
+        """Instance attributes ever assigned on this accessor class (other than the wrapped object)."""
+        out = set()
+        for n in ast.walk(self.cls.node):
+            if isinstance(n, ast.Attribute) and isinstance(n.ctx, ast.Store) and isinstance(n.value, ast.Name) \
+                    and n.value.id == "self" and n.attr not in ACCESSOR_FIELDS:
+                out.add(n.attr)
+        return out
 
     def _acc_member(self, clsname, attr):
         for m in self.repo.modules.values():
@@ -1004,9 +1055,11 @@ class FuncAnalysis:
         if name == "setattr" and args:
             self.sink(args[0], ("C", "V"), e, "setattr on an object")
             if args[0].kind == "SELF" and self.is_acc and self.fi.name != "__init__":
-                self.out.field_writes.append(("<setattr>", self.fi.file, e.lineno, unparse(e)[:140]))
+                self.out.field_writes.append(("<setattr>", self.fi.file, e.lineno, unparse(e)[:140],
+                                              bool(len(args) > 2 and args[2].all_pairs()), False))
             elif args[0].kind == "SELF" and self.is_acc:
-                self.out.field_writes.append(("__init__:<setattr>", self.fi.file, e.lineno, unparse(e)[:140]))
+                self.out.field_writes.append(("__init__:<setattr>", self.fi.file, e.lineno, unparse(e)[:140],
+                                              bool(len(args) > 2 and args[2].all_pairs()), False))
             return fresh("SC")
         if name in ("next",) and args:
             return self.iter_elem(args[0], None)
@@ -1015,7 +1068,10 @@ class FuncAnalysis:
                 return AV.root(f"g:{self.mod.name}.<globals>", "PY")
             return fresh("TOP")
         if name in ("super",):
-            return self.env.get("self", fresh("TOP"))
+            sv = self.env.get("self", fresh("TOP"))
+            if self.cls is not None and any(b in ("dict", "list", "set", "OrderedDict", "collections.OrderedDict") for b in self.cls.bases):
+                return AV("PY", B=sv.B | sv.C, elem=fresh("TOP"))
+            return sv
         return fresh("SC") if name in X.BUILTIN_FRESH or name in ("isinstance", "len") else fresh("TOP")
 
     def construct(self, cls, args, kws, e):
@@ -1072,7 +1128,7 @@ class FuncAnalysis:
             bind.setdefault(f"p:**{kwname}", fresh("SC"))
         if fi.node.args.vararg is not None:
             bind.setdefault(f"p:*{fi.node.args.vararg.arg}", fresh("SC"))
-        if self_av is not None and (is_acc_method or is_plugin):
+        if self_av is not None and (is_acc_method or is_plugin or fi.cls is not None):
             bind["self"] = self_av
         elif is_acc_method:
             bind["self"] = fresh("TOP")
